@@ -93,10 +93,57 @@ def check(prog: Program, tier: str) -> Result:
     _r15_5(prog, res, ev)
     _r15_6(prog, res, ev)
     _r15_8(prog, res, ev)
+    _r15_9(prog, res, ev)
     _r15_7(prog, res, ev)
-    res.floors.update({"R15.1": 23, "R15.2": 18, "R15.3": 2, "R15.4": 10, "R15.5": 2, "R15.6": 2})
+    res.floors.update({"R15.1": 23, "R15.2": 18, "R15.3": 2, "R15.4": 10, "R15.5": 2, "R15.6": 2, "R15.9": 2})
     res.analysed.update({"evaluator_functions": [f.fq for f in ev.members], "external_call_sites": len(ev.call_sites())})
     return res
+
+
+# ------------------------------------------------------------------------------------------------ R15.9
+def _r15_9(prog: Program, res: Result, ev: Evaluator) -> None:
+    """The evaluator runs in ANOTHER process than the program it folds.  The order in which a set of strings is iterated depends
+    on the hash seed, which differs between the two (and between two runs of the formatter): `list({"spam", "eggs"}) == [...]`,
+    `", ".join({...})`, `str({...})` have no value that is true for the program.  At every primitive that calls a builtin or a
+    method with evaluated arguments the path must carry the outcome of a test for set-valued arguments (a repository
+    predicate whose body tests isinstance(.., (set, frozenset)), or that test inline)."""
+    from ..pathcond import entails
+    n = 0
+    for f, c, kind in ev.primitive_sites():
+        if kind not in ("builtin call", "method call on evaluated receiver"):
+            continue
+        n += 1
+
+        def is_set_test(text: str) -> bool:
+            t = text.replace(" ", "")
+            return "isinstance(" in t and ("(set,frozenset)" in t or "(frozenset,set)" in t)
+
+        def tested_at(g, at, call) -> bool:
+            """at `at` in g, the outcome (negative) of a set test over what `call` passes on is known"""
+            pa = _pa(prog, g)
+            worlds = pa.worlds_at(at)
+            passed = {y.id for a in call.args for y in ast.walk(a) if isinstance(y, ast.Name)}
+            tests = []
+            for x in ast.walk(g.node):
+                if isinstance(x, ast.Call) and passed & {y.id for a in x.args for y in ast.walk(a) if isinstance(y, ast.Name)}:
+                    r = prog.resolve_call(x.func, g.mod, g)
+                    if r and r[0] == "fn" and is_set_test(norm(r[1].node)):
+                        tests.append(x)
+                    elif isinstance(x.func, ast.Name) and x.func.id == "any" and is_set_test(norm(x)):
+                        tests.append(x)
+            return bool(worlds) and any(all(entails(w.facts, pa.formula(t, w, False)) for w in worlds) for t in tests)
+        ok = False
+        for alt in ev.guard_sites(f, c, kind):
+            # inside the function that performs the call, the test must be known AT THE CALL (a callee held in a local is bound before
+            # the arguments are tested); for a helper, at each call of the helper
+            if alt and all(tested_at(g, c if g is f else at, c if g is f else at) for g, at, _e, _subst in alt):
+                ok = True
+        res.decide(ok, "R15.9", f.loc(c), f.fq, f"{short(c, 70)} # {kind}",
+                   "performed only after the arguments were tested for sets whose order the call could reveal" if ok else
+                   "evaluated arguments that are SETS are handed to a call that can see their iteration order (list, tuple, str, join, enumerate, zip ...): the value depends on the "
+                   "hash seed of the formatter's process, not of the program - `list({'spam', 'eggs', 'ham'}) == [..]` folds to True or False from run to run")
+    if n == 0:
+        raise AnalysisError("R15.9: no builtin / method primitive found")
 
 
 # ------------------------------------------------------------------------------------------------ R15.8
@@ -461,6 +508,11 @@ def _r15_6(prog: Program, res: Result, ev: Evaluator) -> None:
 from ..selftest import Variant  # noqa: E402
 
 VARIANTS = [
+    Variant("set-order-revealed-to-builtins", "FIRE", "core",
+            "            if _reveals_set_order(node.func.id, args):\n                raise ValueError(\"The order of a set is not the same in every process\")\n", "", "R15.9"),
+    Variant("set-order-test-inline", "SILENT", "core",
+            "            if _reveals_set_order(node.func.id, args):\n                raise ValueError(\"The order of a set is not the same in every process\")\n",
+            "            if any(isinstance(arg, (set, frozenset)) for arg in args):\n                raise ValueError(\"The order of a set is not the same in every process\")\n"),
     Variant("builtin-call-tested-against-rebound-names", "SILENT", "core",
             "        if isinstance(node.func, ast.Name) and node.func.id in constants.PURE_BUILTIN_FUNCTIONS:\n            args = [literal_value(arg) for arg in node.args]",
             "        if isinstance(node.func, ast.Name) and node.func.id in constants.PURE_BUILTIN_FUNCTIONS and node.func.id not in REBOUND_NAMES:\n            args = [literal_value(arg) for arg in node.args]",
@@ -499,8 +551,8 @@ VARIANTS = [
             "        if isinstance(node.func, ast.Name) and node.func.id in (constants.PURE_BUILTIN_FUNCTIONS | frozenset({\"abs\"})):"),
     Variant("evaluator-memoised-by-node", "SILENT", "core", "def _literal_value(node: ast.AST) -> bool:", "@functools.lru_cache(maxsize=1000)\ndef _literal_value(node: ast.AST) -> bool:"),
     Variant("builtin-results-memoised-by-value", "FIRE", "core",
-            "            args = [literal_value(arg) for arg in node.args]\n            return getattr(builtins, node.func.id)(*args)",
-            "            args = tuple(literal_value(arg) for arg in node.args)\n            return _memo_call(getattr(builtins, node.func.id), args)", "R15.8",
+            "            args = [literal_value(arg) for arg in node.args]\n            if _reveals_set_order(node.func.id, args):\n                raise ValueError(\"The order of a set is not the same in every process\")\n            return getattr(builtins, node.func.id)(*args)",
+            "            args = tuple(literal_value(arg) for arg in node.args)\n            if _reveals_set_order(node.func.id, args):\n                raise ValueError(\"The order of a set is not the same in every process\")\n            return _memo_call(getattr(builtins, node.func.id), args)", "R15.8",
             extra=[("core", "def _literal_value(node: ast.AST) -> bool:", "@functools.lru_cache(maxsize=1000, typed=True)\ndef _memo_call(function, args):\n    return function(*args)\n\n\ndef _literal_value(node: ast.AST) -> bool:")]),
     Variant("table-eq-as-lambda", "SILENT", "constants", "    ast.Eq: operator.eq,\n", "    ast.Eq: lambda a, b: a == b,\n"),
     Variant("table-reordered", "SILENT", "constants", "    ast.Eq: operator.eq,\n    ast.NotEq: operator.ne,\n", "    ast.NotEq: operator.ne,\n    ast.Eq: operator.eq,\n"),
